@@ -47,6 +47,44 @@ def canon_seg(s):
     return [r10(s.peak.position), r20(s.segmentScore), [canon_pos(p) for p in s.positions]]
 
 
+def chain_trace(segs, sj, ss, exact):
+    """the decisions of SegmentChainer.chain (predecessor of every segment, index of the best end) recomputed with the code's own formula,
+    in double arithmetic (exact=False: the very operations of the code) or in exact rational arithmetic (exact=True: what the Gallina model
+    computes).  The join score divides by a data-dependent integer, so it is in general not a dyadic rational: where two alternatives tie
+    or nearly tie, rounding can decide differently from exact arithmetic."""
+    from fractions import Fraction
+    F = (lambda x: Fraction(x)) if exact else (lambda x: float(x))
+    ne = sorted((s for s in segs if not s.empty), key=lambda s: s.startPosition.reference.position + s.endPosition.reference.position
+                + s.startPosition.query.position + s.endPosition.query.position)
+
+    def score(prev, cur):
+        ql = min(abs(F(cur.endPosition.query.position) - F(cur.startPosition.query.position)), abs(F(prev.endPosition.query.position) - F(prev.startPosition.query.position)))
+        rd = F(cur.startPosition.reference.position) - F(prev.endPosition.reference.position)
+        rl = min(F(cur.endPosition.reference.position) - F(cur.startPosition.reference.position), F(prev.endPosition.reference.position) - F(prev.startPosition.reference.position))
+        qd = F(cur.startPosition.query.position) - F(prev.endPosition.query.position)
+        if min(rl + 2 * rd, ql + 2 * qd) < 0:
+            return None
+        ds = rd + qd; ads = abs(rd) + abs(qd); dd = rd - qd
+        v = (ds ** 2 + dd ** 2) / max(abs(ds), abs(dd), 1) if ss == 0 else (ads ** 2 + dd ** 2) / max(ads + abs(dd), 1)
+        return -F(sj) * v
+    cum = [None] * len(ne); prev = [None] * len(ne); best = 0
+    for i, c in enumerate(ne):
+        cum[i] = F(0)
+        for j in range(i):
+            if cum[j] is None:
+                continue
+            sc = score(ne[j], c)
+            if sc is None:
+                continue
+            cur = cum[j] + sc
+            if cur > cum[i]:
+                cum[i] = cur; prev[i] = j
+        cum[i] += F(c.segmentScore)
+        if cum[i] > cum[best]:
+            best = i
+    return prev, best
+
+
 def run_align(case):
     """runs the real Aligner.align; also records the segments each peak produced before conflict resolution"""
     from src.correlation.optical_map import OpticalMap
@@ -59,10 +97,17 @@ def run_align(case):
     try:
         al = mk_aligner(P)
         al.alignmentEngine.iteration = case['it']
-        ins = []
+        ins, raw = [], []
         for p in peaks:
-            ins.extend(canon_seg(s) for s in al.getSegments(case['rev'], p, qm, ref))
+            ss_ = list(al.getSegments(case['rev'], p, qm, ref))
+            raw.extend(ss_)
+            ins.extend(canon_seg(s) for s in ss_)
         out['inputs'] = ins
+        try:
+            if len([s for s in raw if not s.empty]) >= 2 and chain_trace(raw, P['sj'], P['ss'], False) != chain_trace(raw, P['sj'], P['ss'], True):
+                out['float_flip'] = True      # double rounding decides a (near-)tie of the chainer differently from exact arithmetic
+        except Exception as e:
+            out['float_flip_err'] = type(e).__name__
     except Exception as e:
         out['inputs_err'] = type(e).__name__
     try:
